@@ -66,6 +66,11 @@ func FindGrouping(n Node, name string, seen map[string]bool) *Grouping {
 			for _, i := range v.Interface().([]*Import) {
 				// If the prefix matches the import statement,
 				// then search for the trimmed name in that module.
+				if i.Module == nil {
+					// Unresolved: n is in a submodule that no
+					// loaded module includes.
+					continue
+				}
 				pname := strings.TrimPrefix(name, i.Prefix.Name+":")
 				if pname == name {
 					continue
@@ -78,6 +83,9 @@ func FindGrouping(n Node, name string, seen map[string]bool) *Grouping {
 		v = e.FieldByName("Include")
 		if v.IsValid() {
 			for _, i := range v.Interface().([]*Include) {
+				if i.Module == nil {
+					continue
+				}
 				if seen[i.Module.Name] {
 					// Prevent infinite loops in the case that we have already looked at
 					// this submodule. This occurs where submodules have include statements
